@@ -157,13 +157,42 @@ def _sets():
 LIT_SETS = _sets()
 
 
+FIELD_CMPS = [binop(r, a, b) for r in RELS for a in (X, own('z')) for b in (X, own('z'))]
+NEG_ATOMS = [P, binop('>', X, L(0)), AB, binop('>', AY, L(0))]
+NEG_OPS = ['or', 'implies', 'and']
+VARI3 = [binop('>', ('var', 'i'), L(0)), binop('<', ('var', 'i'), L(2)), binop('!=', ('var', 'i'), X), AB, P]
+
+
+def _neg_nest(op1, op2, a, b, c, form):
+    if form == 0:
+        return ('un', 'not', binop(op1, binop(op2, a, b), c))
+    if form == 1:
+        return ('un', 'not', binop(op1, a, ('un', 'not', binop(op2, b, c))))
+    if form == 2:
+        return ('un', 'not', binop(op1, ('un', 'not', binop(op2, a, b)), c))
+    return binop(op1, ('un', 'not', binop(op2, a, b)), ('un', 'not', c))
+
+
+def _conj3(qk, dom, a, b, c, form):
+    # a universal / existential over a conjunction (or disjunction) of three parts, in both associations
+    if form == 0:
+        body = binop('and', a, binop('and', b, c))
+    elif form == 1:
+        body = binop('and', binop('and', a, b), c)
+    elif form == 2:
+        body = binop('and', a, binop('or', b, c))
+    else:
+        body = binop('or', binop('and', a, b), c)
+    return ('q', qk, 'i', dom, body)
+
+
 class Family:
     """A lazily indexed family of terms: len() and __getitem__ without materialising products."""
 
     def __init__(self, name, parts, build):
         self.name = name
         # how much denser than the tier's stride this family is sliced: the law tables are small and carry most rules
-        self.density = 'full' if name.startswith(('agg_', 'in_')) else 10 if name.startswith(('pow_', 'lin_', 'quant_lit')) else 1
+        self.density = 'full' if name.startswith(('agg_', 'in_')) else 10 if name.startswith(('pow_', 'lin_', 'quant_lit', 'dense_')) else 1
         self.parts = parts
         self.build = build
         self.sizes = [len(p) for p in parts]
@@ -218,6 +247,9 @@ def families():
         Family('lin_cmp_r', [RELS, LIN_OPS, LIN_VARS, LIN_CONSTS, LIN_CONSTS], lambda r, o, v, c1, c2: binop(r, c2, binop(o, c1, v))),
         Family('lin_cmp_both', [RELS, LIN_OPS, LIN_VARS, LIN_VARS, LIN_CONSTS], lambda r, o, v, w, c: binop(r, binop(o, v, c), binop(o, w, c))),
         Family('cmp_pair', [CONN + ['=', '!='], CMP_ALL, CMP_ALL], lambda op, a, b: binop(op, a, b)),
+        Family('dense_cmp_pair_fields', [CONN + ['=', '!='], FIELD_CMPS, FIELD_CMPS], lambda op, a, b: binop(op, a, b)),
+        Family('dense_neg_nest', [NEG_OPS, NEG_OPS, NEG_ATOMS, NEG_ATOMS, NEG_ATOMS, [0, 1, 2, 3]], _neg_nest),
+        Family('dense_quant_conj3', [['forall', 'exists'], [XS, AYS, ('range', L(0), L(1), False, False)], VARI3[:3], VARI3, VARI3, [0, 1, 2, 3]], _conj3),
         Family('cmp_pair_not', [['and', 'or'], CMP_ALL, CMP_ALL], lambda op, a, b: binop(op, a, ('un', 'not', b))),
         Family('agg_range', [AGG_FUNCS, RANGE_LO, RANGE_HI, EXCL], lambda f, lo, hi, ex: ('call', f, ('range', lo, hi, ex[0], ex[1]))),
         Family('agg_range_var', [AGG_FUNCS, [X, binop('+', X, L(1))], RANGE_HI, EXCL], lambda f, lo, hi, ex: ('call', f, ('range', lo, hi, ex[0], ex[1]))),
@@ -250,4 +282,4 @@ def nth(fams, idx):
 def boolean_family_names():
     return {'cmp_depth1', 'bool_depth2', 'bool_not_depth2', 'quant', 'quant_not', 'quant_not2', 'quant_not3', 'bool_not2', 'quant_body_not', 'quant_conn', 'quant_conn_r', 'bool_cmp',
             'lin_cmp', 'lin_cmp_r', 'lin_cmp_both', 'lin_cmp_same', 'cmp_pair', 'cmp_pair_not', 'nested_quant', 'nested_quant_outer',
-            'in_range', 'in_set', 'quant_lit_range'}  # fmt: skip
+            'in_range', 'in_set', 'quant_lit_range', 'dense_cmp_pair_fields', 'dense_neg_nest', 'dense_quant_conj3'}  # fmt: skip
